@@ -119,18 +119,18 @@ class Ctx:
             self.classes[c] += 1
 
     # ---- failures -------------------------------------------------------
-    def fail(self, kind, msg, **detail):
+    def fail(self, kind_, msg_, **detail):
         """Report an oracle failure.  Returns normally (True) when it matches a
         committed known finding, raises Violation otherwise."""
         for k in self.known:
-            if k.get("kind") == kind and all(detail.get(a) == b for a, b in k.get("where", {}).items()):
+            if k.get("kind") == kind_ and all(detail.get(a) == b for a, b in k.get("where", {}).items()):
                 self.known_seen[k["id"]] += 1
                 return True
-        raise Violation(kind, msg, detail)
+        raise Violation(kind_, msg_, detail)
 
-    def check(self, cond, kind, msg, **detail):
-        if not cond:
-            return self.fail(kind, msg, **detail)
+    def check(self, cond_, kind_, msg_, **detail):
+        if not cond_:
+            return self.fail(kind_, msg_, **detail)
         return False
 
     # ---- scratch dirs ---------------------------------------------------
